@@ -562,6 +562,8 @@ class Rooms(Combinator[RoomsType]):
     ) -> Optional[Tuple[int, List[RoomsType]]]:
         height = env.height
         width = env.width
+        if height <= 0 or width <= 0:
+            raise ValueError("a board without cells has no rooms")
 
         combinator = Tupl(
             Grid(MultiDigit(base=2, digits=5), height=height, width=width - 1),
